@@ -664,3 +664,260 @@ Proof.
   - transitivity (map ic T); [now apply Permutation_sym|now apply Permutation_map].
   - apply OrdL_items. eapply Permutation_Forall; [exact HP|]. eapply Forall_impl; [|exact HG]. intros x H. apply H.
 Qed.
+
+(* ------------------------------------------------------------------------------------------------ *)
+(* both ends without v *)
+Definition ends0 (w : list bool) : Prop := w <> [] /\ hd true w = false /\ last w true = false.
+
+Lemma last_app_ne {T} (a b : list T) d : b <> [] -> last (a ++ b) d = last b d.
+Proof.
+  intros Hb. induction a as [|x a IH]; [reflexivity|]. simpl. destruct (a ++ b) eqn:E; [|exact IH].
+  apply app_eq_nil in E. destruct E. congruence.
+Qed.
+
+Lemma ends0_app a b : ends0 a -> ends0 b -> ends0 (a ++ b).
+Proof.
+  intros (Ha1 & Ha2 & Ha3) (Hb1 & Hb2 & Hb3). repeat split.
+  - destruct a; [congruence|discriminate].
+  - destruct a; [congruence|exact Ha2].
+  - now rewrite last_app_ne.
+Qed.
+
+Lemma ends0_concat W : W <> [] -> Forall ends0 W -> ends0 (concat W).
+Proof.
+  intros Hne H. induction H as [|w W Hw HW IH]; [congruence|]. simpl.
+  destruct W as [|w2 W']; [simpl; now rewrite app_nil_r|]. apply ends0_app; [exact Hw|]. apply IH. discriminate.
+Qed.
+
+Lemma all_zero_ends0 w : w <> [] -> all_zero w = true -> ends0 w.
+Proof.
+  intros Hne Hz. split; [exact Hne|]. split.
+  - destruct w as [|[|] w]; simpl in *; congruence.
+  - induction w as [|[|] w IH]; simpl in *; try congruence. destruct w; [reflexivity|]. apply IH; [discriminate|exact Hz].
+Qed.
+
+Lemma OrdL_blocks l : forall o, OrdL l o -> exists os, Forall2 Ord l os /\ o = concat os.
+Proof. intros o (os & H & ->). eauto. Qed.
+
+(* a node all of whose children are without v or UNALIGNED-like is UNALIGNED-like *)
+Lemma U2_children v k cs : cs <> [] ->
+  Forall (fun c => proper c = true /\ (PureE v c \/ U2 v c)) cs -> U2 v (Node k cs).
+Proof.
+  intros Hne H o Ho.
+  assert (Hgen : forall l, l <> [] -> Forall (fun c => proper c = true /\ (PureE v c \/ U2 v c)) l ->
+                 forall o, OrdL l o -> ends0 (wv v o)).
+  { intros l Hl HF o' (os & HO & ->). unfold wv. rewrite concat_map.
+    apply ends0_concat.
+    - destruct l; [congruence|]. inversion HO; subst. discriminate.
+    - clear Hl. induction HO as [|c oc l os Hc HO IH]; simpl; [constructor|]. inversion HF as [|? ? [Hp Hc'] HF']; subst.
+      constructor; [|now apply IH].
+      assert (Hne' : map (memn v) oc <> []).
+      { pose proof (Ord_nonempty c oc Hp Hc). destruct oc; [congruence|discriminate]. }
+      destruct Hc' as [HE|HU].
+      + apply all_zero_ends0; [exact Hne'|]. exact (Ord_PureE_word v c oc HE Hc).
+      + destruct (HU oc Hc) as [H1 H2]. repeat split; auto. }
+  assert (HE : ends0 (wv v o)).
+  { destruct k.
+    - apply Ord_P in Ho. destruct Ho as (cs' & HP & HL). apply (Hgen cs'); auto.
+      + intros ->. apply Permutation_sym, Permutation_nil in HP. congruence.
+      + eapply Permutation_Forall; eassumption.
+    - apply Ord_Q in Ho. destruct Ho as [Ho|Ho]; [now apply (Hgen cs)|]. apply (Hgen (rev cs)); auto.
+      + intros E. apply (f_equal (@rev pq)) in E. rewrite rev_involutive in E. simpl in E. congruence.
+      + now apply Forall_rev. }
+  destruct HE as (_ & H1 & H2). auto.
+Qed.
+
+(* a Q-node whose first and last children are without v *)
+Lemma U2_Q_ends v a mid b : proper a = true -> proper b = true -> PureE v a -> PureE v b ->
+  Forall (fun c => proper c = true) mid -> U2 v (Node KQ (a :: mid ++ [b])).
+Proof.
+  intros Hpa Hpb HEa HEb Hpm o Ho.
+  assert (Hgen : forall x y m o', proper x = true -> proper y = true -> PureE v x -> PureE v y ->
+                 OrdL (x :: m ++ [y]) o' -> hd true (wv v o') = false /\ last (wv v o') true = false).
+  { intros x y m o' Hpx Hpy HEx HEy Ho'. apply OrdL_cons in Ho'. destruct Ho' as (ox & o2 & -> & Hox & Ho2).
+    apply OrdL_app in Ho2. destruct Ho2 as (om & oy & -> & Hom & Hoy). apply OrdL_one in Hoy.
+    pose proof (Ord_nonempty x ox Hpx Hox) as Nx. pose proof (Ord_nonempty y oy Hpy Hoy) as Ny.
+    pose proof (Ord_PureE_word v x ox HEx Hox) as Zx. pose proof (Ord_PureE_word v y oy HEy Hoy) as Zy.
+    rewrite !wv_app. split.
+    - destruct ox as [|s ox]; [congruence|]. simpl in *. apply andb_true_iff in Zx. destruct Zx as [Zx _].
+      now apply negb_true_iff in Zx.
+    - rewrite app_assoc, last_app_ne by (destruct oy; [congruence|discriminate]).
+      destruct (all_zero_ends0 (wv v oy)) as (_ & _ & H); auto. destruct oy; [congruence|discriminate]. }
+  apply Ord_Q in Ho. destruct Ho as [Ho|Ho]; [now apply (Hgen a b mid)|].
+  simpl rev in Ho. rewrite rev_app_distr in Ho. simpl in Ho.
+  now apply (Hgen b a (rev mid)).
+Qed.
+
+(* children without v around one composite child NQ whose frontier is the run in the middle *)
+Lemma run_frontier v (W1 run W3 : list item) setE NQ :
+  Forall (GoodItem v) (W1 ++ W3) -> Permutation setE (map ic (W1 ++ W3)) ->
+  Ord NQ (flat_map ib run) -> Ord (Node KP (setE ++ [NQ])) (flat_map ib (W1 ++ run ++ W3)).
+Proof.
+  intros HG HP HN. apply Ord_P. exists (map ic W1 ++ [NQ] ++ map ic W3). split.
+  - rewrite map_app in HP. transitivity ((map ic W1 ++ map ic W3) ++ [NQ]); [now apply Permutation_app_tail|].
+    rewrite <- app_assoc. apply Permutation_app_head. apply Permutation_app_comm.
+  - apply Forall_app in HG. destruct HG as [H1 H3]. rewrite !flat_map_app.
+    apply OrdL_app. exists (flat_map ib W1), (flat_map ib run ++ flat_map ib W3). repeat split.
+    + apply OrdL_items. eapply Forall_impl; [|exact H1]. intros x H. apply H.
+    + apply OrdL_cons. exists (flat_map ib run), (flat_map ib W3). repeat split; auto.
+      apply OrdL_items. eapply Forall_impl; [|exact H3]. intros x H. apply H.
+Qed.
+
+(* ------------------------------------------------------------------------------------------------ *)
+(* helpers for the restructuring branches *)
+Lemma Al_partial_child la v T : Al la v T -> proper T = true -> Partial v T -> is_partial_child v T = true.
+Proof.
+  intros HA Hp [HE HF]. destruct (is_partial_child v T) eqn:E; [reflexivity|]. exfalso. apply HF.
+  apply (Al_honest la v T Hp HA); [|exact E]. destruct (contains v T) eqn:Ec; [reflexivity|].
+  apply contains_false_iff in Ec. contradiction.
+Qed.
+
+Lemma Partial_reverse v t : Partial v t -> Partial v (reverse t).
+Proof. intros [HE HF]. split; intros H; [apply HE; now apply PureE_reverse|apply HF; now apply PureF_reverse]. Qed.
+
+Lemma PF_frontier v Fs setF : Forall (GoodItem v) Fs -> Permutation setF (map ic Fs) -> setF <> [] ->
+  Ord (new_node KP setF) (flat_map ib Fs).
+Proof.
+  intros HG HP Hne. apply Ord_new_node; [exact Hne|]. apply Ord_P. exists (map ic Fs). split; [exact HP|].
+  apply OrdL_items. eapply Forall_impl; [|exact HG]. intros x H. apply H.
+Qed.
+
+(* the pieces of an aligned partial child a fit its block: forwards when the sets with v are at the right end of
+   the block, backwards when they are at its left end *)
+Lemma PA_pieces v a : GoodItem v a -> ist a = SPartA ->
+  (zeros_ones (wd v a) = true -> OrdL (simplify v true (ic a)) (ib a)) /\
+  (ones_zeros (wd v a) = true -> OrdL (rev (simplify v true (ic a))) (ib a)).
+Proof.
+  intros (Hp & HS & Ho & _) Hst. rewrite Hst in HS. simpl in HS. destruct HS as [HA HP].
+  pose proof (Al_partial_child false v (ic a) HA Hp HP) as Hpc.
+  destruct (simplify_complete false v (ic a) HA Hp Hpc (ib a) Ho) as [H1 H2]. auto.
+Qed.
+
+(* ... and of its reversal, simplified to the left *)
+Lemma PA_pieces_rev v a : GoodItem v a -> ist a = SPartA ->
+  (ones_zeros (wd v a) = true -> OrdL (simplify v false (reverse (ic a))) (ib a)) /\
+  (zeros_ones (wd v a) = true -> OrdL (rev (simplify v false (reverse (ic a)))) (ib a)).
+Proof.
+  intros (Hp & HS & Ho & _) Hst. rewrite Hst in HS. simpl in HS. destruct HS as [HA HP].
+  assert (Hpr : proper (reverse (ic a)) = true) by now rewrite proper_reverse.
+  pose proof (Al_partial_child true v _ (Al_reverse v _ HA) Hpr (Partial_reverse v _ HP)) as Hpc.
+  destruct (simplify_complete true v _ (Al_reverse v _ HA) Hpr Hpc (ib a) (Ord_reverse_c _ _ Ho)) as [H1 H2]. auto.
+Qed.
+
+Lemma cnt_filter_length s l : length (filter (fun x => status_eqb s (ist x)) l) = cnt s l.
+Proof.
+  induction l as [|x t IH]; [reflexivity|]. rewrite cnt_cons. simpl. destruct (status_eqb s (ist x)); simpl; now rewrite IH.
+Qed.
+
+Lemma filter_st_all s0 s l : Forall (fun x => ist x = s0) l ->
+  filter (fun x => status_eqb s (ist x)) l = if status_eqb s s0 then l else [].
+Proof.
+  induction 1 as [|x t Hx Ht IH]; [now destruct (status_eqb s s0)|]. simpl. rewrite Hx, IH.
+  destruct (status_eqb s s0); reflexivity.
+Qed.
+
+(* ------------------------------------------------------------------------------------------------ *)
+(* Stage B: P.set_contiguous after the two passes loses no good frontier and does not raise *)
+Definition isS (s : status) (x : item) : bool := status_eqb s (ist x).
+
+Lemma filter_isS_E_run s W1 run W3 : s <> SEmpty -> Forall (fun x => ist x = SEmpty) (W1 ++ W3) ->
+  filter (isS s) (W1 ++ run ++ W3) = filter (isS s) run.
+Proof.
+  intros Hs H. apply Forall_app in H. destruct H as [H1 H3]. rewrite !filter_app.
+  unfold isS. rewrite (filter_st_all SEmpty s W1 H1), (filter_st_all SEmpty s W3 H3).
+  assert (E : status_eqb s SEmpty = false) by (destruct s; simpl; congruence). rewrite E. now rewrite app_nil_r.
+Qed.
+
+Lemma filter_isS_all s0 s l : Forall (fun x => ist x = s0) l -> filter (isS s) l = if status_eqb s s0 then l else [].
+Proof. apply filter_st_all. Qed.
+Lemma filter_isS_cons_eq s a l : ist a = s -> filter (isS s) (a :: l) = a :: filter (isS s) l.
+Proof. intros H. simpl. unfold isS at 1. rewrite H. now destruct s. Qed.
+Lemma filter_isS_cons_ne s s' a l : ist a = s' -> s <> s' -> filter (isS s) (a :: l) = filter (isS s) l.
+Proof. intros H Hne. simpl. unfold isS at 1. rewrite H. destruct s, s'; simpl; congruence. Qed.
+
+Lemma perm_singleton_eq {T} (l : list T) a : Permutation l [a] -> l = [a].
+Proof. intros H. apply Permutation_sym in H. now apply Permutation_length_1_inv in H. Qed.
+
+Section PCase.
+Variable v : nat.
+Variables T T' : list item.
+Hypothesis Hn : 2 <= length T.
+Hypothesis HG : Forall (GoodItem v) T.
+Hypothesis HP : Permutation T T'.
+
+Let HG' : Forall (GoodItem v) T'.
+Proof. eapply Permutation_Forall; eassumption. Qed.
+
+Lemma setE_perm W1 run W3 : T' = W1 ++ run ++ W3 -> Forall (fun x => ist x = SEmpty) (W1 ++ W3) ->
+  filter (isS SEmpty) run = [] ->
+  Permutation (map ic (filter (isS SEmpty) T)) (map ic (W1 ++ W3)).
+Proof.
+  intros -> HE Hr. apply Permutation_map. etransitivity; [apply filter_perm; exact HP|].
+  apply Forall_app in HE. destruct HE as [H1 H3]. rewrite !filter_app, Hr. unfold isS.
+  rewrite (filter_st_all SEmpty SEmpty W1 H1), (filter_st_all SEmpty SEmpty W3 H3). reflexivity.
+Qed.
+
+Lemma set_perm s W1 run W3 : s <> SEmpty -> T' = W1 ++ run ++ W3 -> Forall (fun x => ist x = SEmpty) (W1 ++ W3) ->
+  Permutation (filter (isS s) T) (filter (isS s) run).
+Proof.
+  intros Hs -> HE. etransitivity; [apply filter_perm; exact HP|]. now rewrite filter_isS_E_run.
+Qed.
+
+(* the "else" branch with at most one aligned partial child *)
+Lemma B5_complete W1 run W3 (Fs : list item) (pa : list item) :
+  T' = W1 ++ run ++ W3 -> Forall (fun x => ist x = SEmpty) (W1 ++ W3) ->
+  Forall (fun x => ist x = SFull) Fs -> Fs <> [] ->
+  (pa = [] /\ run = Fs \/
+   exists a, pa = [a] /\ ist a = SPartA /\
+     (run = a :: Fs /\ zeros_ones (wd v a) = true \/ run = Fs ++ [a] /\ ones_zeros (wd v a) = true)) ->
+  Ord (Node KP (map ic (filter (isS SEmpty) T) ++
+                [new_node KQ (match map ic (filter (isS SPartA) T) with c :: _ => simplify v true c | [] => [] end ++
+                              [new_node KP (map ic (filter (isS SFull) T))])]))
+      (flat_map ib T').
+Proof.
+  intros ET' HE HF HFne Hforms.
+  assert (HGr : Forall (GoodItem v) run /\ Forall (GoodItem v) (W1 ++ W3)).
+  { rewrite ET' in HG'. apply Forall_app in HG'. destruct HG' as [G1 G2]. apply Forall_app in G2. destruct G2 as [G2 G3].
+    split; [exact G2|apply Forall_app; auto]. }
+  destruct HGr as [HGrun HGW].
+  assert (HrunE : filter (isS SEmpty) run = []).
+  { destruct Hforms as [[_ ->]|(a & _ & Ha & [[-> _]|[-> _]])].
+    - now rewrite (filter_isS_all SFull SEmpty Fs HF).
+    - rewrite (filter_isS_cons_ne SEmpty SPartA a Fs Ha) by discriminate. now rewrite (filter_isS_all SFull SEmpty Fs HF).
+    - rewrite filter_app, (filter_isS_cons_ne SEmpty SPartA a [] Ha) by discriminate.
+      now rewrite (filter_isS_all SFull SEmpty Fs HF). }
+  assert (HrunF : filter (isS SFull) run = Fs).
+  { destruct Hforms as [[_ ->]|(a & _ & Ha & [[-> _]|[-> _]])].
+    - now rewrite (filter_isS_all SFull SFull Fs HF).
+    - rewrite (filter_isS_cons_ne SFull SPartA a Fs Ha) by discriminate. now rewrite (filter_isS_all SFull SFull Fs HF).
+    - rewrite filter_app, (filter_isS_cons_ne SFull SPartA a [] Ha) by discriminate.
+      rewrite (filter_isS_all SFull SFull Fs HF). simpl. now rewrite app_nil_r. }
+  assert (HrunPA : filter (isS SPartA) run = pa).
+  { destruct Hforms as [[-> ->]|(a & -> & Ha & [[-> _]|[-> _]])].
+    - now rewrite (filter_isS_all SFull SPartA Fs HF).
+    - rewrite (filter_isS_cons_eq SPartA a Fs Ha). now rewrite (filter_isS_all SFull SPartA Fs HF).
+    - rewrite filter_app, (filter_isS_cons_eq SPartA a [] Ha). now rewrite (filter_isS_all SFull SPartA Fs HF). }
+  pose proof (set_perm SFull W1 run W3 ltac:(discriminate) ET' HE) as PF. rewrite HrunF in PF.
+  pose proof (set_perm SPartA W1 run W3 ltac:(discriminate) ET' HE) as PPA. rewrite HrunPA in PPA.
+  assert (HGF : Forall (GoodItem v) Fs).
+  { rewrite <- HrunF. apply Forall_forall. intros x Hx. apply filter_In in Hx. rewrite Forall_forall in HGrun. now apply HGrun. }
+  set (setF := map ic (filter (isS SFull) T)).
+  assert (HsetF : Permutation setF (map ic Fs)) by (apply Permutation_map; exact PF).
+  assert (HsetFne : setF <> []).
+  { intros E. rewrite E in HsetF. apply Permutation_nil in HsetF. destruct Fs; [congruence|discriminate]. }
+  pose proof (PF_frontier v Fs setF HGF HsetF HsetFne) as HPF.
+  rewrite ET'. apply (run_frontier v); [exact HGW|now apply (setE_perm W1 run W3)|].
+  destruct Hforms as [[-> ->]|(a & -> & Ha & Hform)].
+  - apply Permutation_sym, Permutation_nil in PPA. rewrite PPA. simpl. exact HPF.
+  - apply perm_singleton_eq in PPA. rewrite PPA. simpl map. cbv iota.
+    assert (HGa : GoodItem v a).
+    { destruct Hform as [[-> _]|[-> _]]; [now inversion HGrun|apply Forall_app in HGrun; destruct HGrun as [_ H]; now inversion H]. }
+    destruct (PA_pieces v a HGa Ha) as [Hfw Hbw].
+    assert (Hne : simplify v true (ic a) ++ [new_node KP setF] <> []) by (intros E; apply app_eq_nil in E; destruct E; discriminate).
+    apply Ord_new_node; [exact Hne|]. apply Ord_Q.
+    destruct Hform as [[-> Hz]|[-> Hz]].
+    + left. simpl flat_map. apply OrdL_app. exists (ib a), (flat_map ib Fs). repeat split; auto. now apply OrdL_one.
+    + right. rewrite rev_app_distr. simpl rev. rewrite flat_map_app. simpl flat_map. rewrite app_nil_r.
+      apply OrdL_cons. exists (flat_map ib Fs), (ib a). repeat split; auto.
+Qed.
+End PCase.
